@@ -211,7 +211,7 @@ Lemma insert_node_inv cf c nd raw :
   (forall r q o, has_id nd r o -> has_id (c_root c) q o -> r = []) ->
   Inv (snd (insert_node cf c nd raw)).
 Proof.
-  intros HI Kn Fn Un Hpre. unfold insert_node.
+  intros HI Kn Fn Un Hpre. unfold insert_node, insert_tail.
   remember (map (cf_fold cf) (removelast raw)) as par eqn:Epar0. clear Epar0.
   set (nm := last raw 0%N).
   set (c1 := with_root c (mkdirp par (c_root c))).
